@@ -203,7 +203,8 @@ theorem unP_toB (hf : cf.fmt = .msgspec) : ∀ (t : PTy) (x : Obj), hk cf t = .t
       split at hh
       · rename_i hk2
         simp only [Bool.and_eq_true, bne_iff_ne, ne_eq] at hk2
-        simp [unP, hk1, hk2]
+        have hk1' : k ≠ .counter := by simpa using hk1
+        simp [unP, hk1', hk2]
       · simp at hh
   | cls c dc fs =>
     cases x <;> simp [confP] at hc
@@ -355,9 +356,7 @@ theorem wire_ne_none (hw : w.WF = true) {t : PTy} {x : Obj} (hc : confP w t x = 
   | map k kt vt =>
     cases x <;> simp [confP] at hc
     simp only [unP]
-    split
-    · simp [norm]
-    · split <;> simp [toB, norm]
+    split <;> simp [toB, norm]
   | cls c dc fs =>
     cases x <;> simp [confP] at hc
     simp only [unP]
